@@ -458,6 +458,54 @@ def _admission_subset(ck, P, cfg):
         READ_ENTRIES = re_
 
 
+def fetch_until_data(ck, P, cfg, R="CUT/fetch-until-data"):
+    """gz_fetch in gzip mode keeps decompressing until there is output or the input is exhausted: finishing a member can
+    produce no bytes at all (an empty member, or a member that ends exactly where the previous fetch stopped), and callers
+    such as gzgets take `have == 0` for the end of the file.  So after a successful gz_decomp no path returns before the test
+    of `have`."""
+    f = P.fn(G + "gz_fetch")
+    if not ck.anchor("fn gz::gz_fetch", f):
+        return
+    ck.use_fn(f)
+    calls = f.live_calls(r"gz::gz_decomp$")
+    if not ck.anchor("gz_decomp call in gz_fetch", len(calls) == 1):
+        return
+    # the success edge of the `?` that follows the call
+    cur, starts = calls[0].target, []
+    for _ in range(8):
+        t = f.blocks[cur]["t"]
+        if t["k"] == "switch":
+            for lab, tb in f.succ[cur]:
+                if lab is None or lab[0] == "const":
+                    continue
+                for a in f.edge_atoms(cur, lab):
+                    if a[0] == "is" and ((a[3] and set(a[2]) & {"Continue", "Ok"}) or (not a[3] and set(a[2]) <= {"Break", "Err"})):
+                        starts.append(tb)
+            break
+        su = f.succ[cur]
+        if len(su) != 1:
+            break
+        cur = su[0][1]
+    if not ck.anchor("success edge after gz_decomp", bool(starts)):
+        return
+    tests = set()
+    for b in f.live:
+        if f.blocks[b]["t"]["k"] != "switch":
+            continue
+        for lab, tb in f.succ[b]:
+            if lab is None or lab[0] == "const":
+                continue
+            for a in f.edge_atoms(b, lab):
+                g = sig.sig(a, f)
+                if "have" in g.names and 0 in g.consts:
+                    tests.add(b)
+    rets = [b for b in f.live if f.blocks[b]["t"]["k"] == "return"]
+    ok = bool(tests) and not flow.reaches_avoiding(f, starts, rets, cut_blocks=tests)
+    ck.decide(ok, R, "gz_fetch:gzip@" + cfg, "no return between a successful gz_decomp and the test of `have`",
+              "gz_fetch can return right after gz_decomp without testing whether any output was produced: at a member boundary it reports "
+              "success with an empty buffer, which gzgets and the gzgetc macro take for end of file", where(f, calls[0].line))
+
+
 def run(ck):
     # the experimental printf entry points exist only in the gzprintf build (K5)
     P5 = prog("K5")
@@ -486,6 +534,7 @@ def run(ck):
     from .. import condparity
     from .. import guards as _g
     _g.gz_error_path(ck, prog("K1"))
+    fetch_until_data(ck, prog("K1"), "K1")
     gzkeys = {k for k in condparity.PAIRS if k.startswith("gz")}
     ck.floor("SIB/ref-conditions", condparity.check(ck, prog("K1"), "SIB/ref-conditions", only=gzkeys), 250)
     ck.assumptions += ["rustc MIR", "effect vocabulary and exception list in rules/props/c17.py", "K1 and K2 (gz feature)"]
